@@ -70,20 +70,16 @@ Proof.
 Qed.
 
 (* the sites where the code DOES depend on the table order, each with what bounds the damage:
-   - value_t::is_less_than / is_greater_than (BALANCE against an amount): order-free against an uncommoditized number
-     (v_ltb_balance_plain_perm); against a commoditized amount the entry met first decides between `false` and the error
-     "Cannot compare amounts with different commodities" (finding, see known_findings.txt);
-   - top_amount (report.cc): amounts.begin() of a balance of several commodities (finding);
    - lookup_probable_account (lookup.cc): std::max_element over a map ordered by account address, ties by address
      (`convert`/`xact` only; candidate);
-   - balance_t::dump and the DEBUG listing of lookup.cc: debug output, printed next to object addresses. *)
+   - balance_t::dump and the DEBUG listing of lookup.cc: debug output, printed next to object addresses.
+   No longer among them (repaired in /repo, findings F190 and F191): value_t::is_less_than / is_greater_than for a BALANCE
+   against an amount (55e6d28) and top_amount (195dbe5) walk `sorted_amounts` now - sites of container "amounts_array",
+   class OTSorted (CompareProofs.v: v_ltb_balance_perm, bal_gt_scalar_perm, top_amount_perm). *)
 Definition order_dependent_sites : list order_site := [
   mkSite "balance.h" "dump" "amounts_map" OTDebugDump;
   mkSite "lookup.cc" "lookup_probable_account" "account_use_map" OTArgmaxTies;
-  mkSite "lookup.cc" "lookup_probable_account" "account_use_map" OTDebugDump;
-  mkSite "report.cc" "top_amount" "amounts_map" OTFirstEntry;
-  mkSite "value.cc" "value_t::is_greater_than" "amounts_map" OTAllPlainOnly;
-  mkSite "value.cc" "value_t::is_less_than" "amounts_map" OTAllPlainOnly
+  mkSite "lookup.cc" "lookup_probable_account" "account_use_map" OTDebugDump
 ].
 
 Definition tag_eqb (a b : order_tag) : bool :=
@@ -114,6 +110,7 @@ Definition covered_sites : list order_site :=
   mkSite "balance.cc" "balance_t::commodity_amount" "amounts_map" OTSingleton;
   mkSite "balance.cc" "balance_t::find_by_name" "amounts_map" OTUniqueMatch;
   mkSite "balance.cc" "balance_t::find_by_name" "amounts_map" OTUniqueMatch;
+  mkSite "balance.cc" "balance_t::map_sorted_amounts" "amounts_array" OTSorted;
   mkSite "balance.cc" "balance_t::map_sorted_amounts" "amounts_map" OTSingleton;
   mkSite "balance.cc" "balance_t::operator*=" "amounts_map" OTElementwise;
   mkSite "balance.cc" "balance_t::operator*=" "amounts_map" OTSingleton;
@@ -149,12 +146,12 @@ Definition covered_sites : list order_site :=
   mkSite "lookup.cc" "lookup_probable_account" "account_use_map" OTDebugDump;
   mkSite "report.cc" "report_t::fn_nail_down" "amounts_map" OTCommutative;
   mkSite "report.cc" "report_t::fn_verif_rational" "amounts_map" OTSorted;
-  mkSite "report.cc" "top_amount" "amounts_map" OTFirstEntry;
+  mkSite "report.cc" "top_amount" "amounts_array" OTSorted;
   mkSite "textual.cc" "instance_t::parse_post" "amounts_map" OTCommutative;
   mkSite "value.cc" "value_t::exchange_commodities" "amounts_map" OTCommutative;
   mkSite "value.cc" "value_t::in_place_cast" "amounts_map" OTSingleton;
-  mkSite "value.cc" "value_t::is_greater_than" "amounts_map" OTAllPlainOnly;
-  mkSite "value.cc" "value_t::is_less_than" "amounts_map" OTAllPlainOnly;
+  mkSite "value.cc" "value_t::is_greater_than" "amounts_array" OTSorted;
+  mkSite "value.cc" "value_t::is_less_than" "amounts_array" OTSorted;
   mkSite "xact.cc" "xact_base_t::finalize" "amounts_map" OTCommutative;
   mkSite "xact.cc" "xact_base_t::finalize" "amounts_map" OTSorted
 ].
@@ -187,12 +184,34 @@ Definition containers_recognised : bool :=
 Lemma order_containers_recognised : containers_recognised = true.
 Proof. vm_compute. reflexivity. Qed.
 
-(* BALANCE < commoditized amount: the faithful model depends on the order of the table *)
-Lemma v_ltb_balance_commoditized_order_dependent :
-  exists b b' w, Permutation b b' /\ v_ltb (VBal b) w <> v_ltb (VBal b') w.
-Proof.
-  exists [mkAmt 1 0 false (Some [69; 85; 82]%Z); mkAmt 2 0 false (Some [85; 83; 68]%Z)],
-         [mkAmt 2 0 false (Some [85; 83; 68]%Z); mkAmt 1 0 false (Some [69; 85; 82]%Z)],
-         (VAmt (mkAmt 1 0 false (Some [69; 85; 82]%Z))).
-  split; [apply perm_swap | vm_compute; discriminate].
-Qed.
+(* the walks over the sorted entries (container "amounts_array"): whatever is computed from the sorted list is a function of
+   the table's contents - the generic statement behind v_ltb_balance_perm, bal_gt_scalar_perm and top_amount_perm *)
+Lemma sorted_walk_order_free (A : Type) (g : list amount -> A) b b' :
+  distinct_keys b -> Permutation b b' -> g (sorted_amounts b) = g (sorted_amounts b').
+Proof. intros Hn HP. rewrite (sorted_amounts_order_free b b' Hn HP). reflexivity. Qed.
+
+(* every site of a sorted walk named in the source is of class OTSorted in the regenerated list *)
+Definition sorted_walk_sites : list order_site := [
+  mkSite "balance.cc" "balance_t::map_sorted_amounts" "amounts_array" OTSorted;
+  mkSite "report.cc" "top_amount" "amounts_array" OTSorted;
+  mkSite "value.cc" "value_t::is_greater_than" "amounts_array" OTSorted;
+  mkSite "value.cc" "value_t::is_less_than" "amounts_array" OTSorted
+].
+
+Lemma sorted_walk_sites_listed : forallb (fun w => existsb (site_eqb w) order_sites) sorted_walk_sites = true.
+Proof. vm_compute. reflexivity. Qed.
+
+Definition is_sorted_walk (s : order_site) : bool := String.eqb (os_cont s) "amounts_array".
+
+Lemma sorted_walks_are_exactly_these : filter is_sorted_walk order_sites = sorted_walk_sites.
+Proof. vm_compute. reflexivity. Qed.
+
+(* the repaired functions no longer iterate over the hash table itself *)
+Definition walks_table_in_a_repaired_function (s : order_site) : bool :=
+  String.eqb (os_cont s) "amounts_map" &&
+  (String.eqb (os_fn s) "value_t::is_less_than" || String.eqb (os_fn s) "value_t::is_greater_than" ||
+   String.eqb (os_fn s) "top_amount").
+
+Lemma repaired_functions_do_not_walk_the_table :
+  forallb (fun s => negb (walks_table_in_a_repaired_function s)) order_sites = true.
+Proof. vm_compute. reflexivity. Qed.
